@@ -414,3 +414,6 @@ def run(tier, seed):
                 shards.append(("run", name, N, G, nparams, boxset, seed, 0, 0, 1))
     col = run_shards(_shard, shards)
     return col, {"exhaustive": col.counters.get("caps_hit", 0) == 0, "boxes": BOXES, "value_draws": [repr(d) for d in DRAWS]}
+
+
+RULE += (' Runs of all five algorithms with the declared bounds narrowed in place after the algorithm object exists, and with a fixed script of transient failures (calls 1, 2, 5) whose replacements are drawn with extreme answers on offer (numpy.random.normal as bound by artap.utils is owned: base, mean-4sigma, mean+4sigma).')
